@@ -289,3 +289,85 @@ def window_clamp_rule(rep, uio, fname="io_buf_realloc"):
                                          "transfer_size is clamped against `used`, not against size - offset: shrinking 100 -> 80 with offset 60 leaves a 40-byte "
                                          "window that ends at 100, recv() writes behind the buffer")
     return 1
+
+
+# ------------------------------------------------------------------ third pass (replays/C16-hunt3): the datagram receiver
+
+def _follow(fn, start, vid, value, stop):
+    """blocks reachable from `start` when the variable vid has `value` (edges contradicted by that value are not taken; a
+    write to the variable ends the pruning); blocks in `stop` are not expanded"""
+    from rules import r_range
+    seen = set()
+    work = [(start, True)]
+    while work:
+        b, tracking = work.pop()
+        if (b, tracking) in seen:
+            continue
+        seen.add((b, tracking))
+        if b in stop:
+            continue
+        blk = fn.blocks[b]
+        if tracking and b != start and any(vid in r_range.direct_writes_of(e) for e in blk.elems):
+            tracking = False
+        succ = [s_ for s_ in blk.rsucc() if s_ is not None]
+        c = blk.cond
+        if tracking and c is not None and len(blk.succ) == 2:
+            atoms = [y for y, _ in walk(c) if core.is_ref(y) and y.get("id") == vid]
+            if atoms:
+                try:
+                    v = r_mpt.eval_expr(c, {id(a): value for a in atoms})
+                    succ = [blk.succ[0] if v else blk.succ[1]]
+                except r_mpt.Unknown:
+                    pass
+        work.extend((s_, tracking) for s_ in succ if s_ is not None)
+    return {b for b, _t in seen}
+
+
+def datagram_receiver_rule(rep, u, fname="tp_task_pkt_rcvr_handler"):
+    """(a) the receive call is not made with an empty window (a zero-length recvfrom on a datagram socket dequeues and drops
+    the datagram); (b) an empty datagram (result 0) is delivered to the callback like any other, it does not end the loop."""
+    fn = tp.need(u, fname)
+    rep.functions.add(fname)
+    rcv = [(pos, c) for pos, root, c, ps in fn.calls({"recvfrom", "recvmsg", "recv"})]
+    if len(rcv) != 1:
+        raise driver.AnalysisBroken("%s: expected one receive call" % fname)
+    rpos, rc = rcv[0]
+    loops = fn.loops()
+    hs = [h for h, b in loops.items() if rpos[0] in b]
+    if not hs:
+        raise driver.AnalysisBroken("%s: the receive call is not in a loop" % fname)
+    body = loops[min(hs, key=lambda h: len(loops[h]))]
+    # (a)
+    ok = False
+    for bid in body:
+        c = fn.blocks[bid].cond
+        if c is None or not fn.dominates(bid, rpos[0]) or bid == rpos[0]:
+            continue
+        atoms = [y for y, _ in walk(c) if y.get("k") == "mem" and y["f"] == "transfer_size"]
+        if not atoms:
+            continue
+        try:
+            v = r_mpt.eval_expr(c, {id(a): 0 for a in atoms})
+        except r_mpt.Unknown:
+            continue
+        s_ = fn.blocks[bid].succ[0] if v else fn.blocks[bid].succ[1]
+        if s_ is None or rpos[0] not in fn.reach_from([s_], avoid=[bid]):
+            ok = True
+    desc = "%s: the receive call is not reached with a transfer window of 0 bytes" % fname
+    (rep.proved if ok else rep.violated)("R-ZEROWIN", fn, "no-zero-length-receive", desc, "" if ok else
+                                         "recvfrom(fd, p, 0) on a datagram socket dequeues the datagram and returns 0: with a 16 byte window and 8 byte datagrams the third, "
+                                         "fourth and fifth datagram vanish without a callback", rc.get("ln"))
+    # (b)
+    ids = core.result_locals(fn, {rc["fn"]})
+    cbs = {pos[0] for pos, root, c, ps in fn.calls() if c.get("fn") is None and "cb_func" in key(c) and pos[0] in body and
+           (pos[0] in fn.reach_from([rpos[0]]) and fn.dominates(rpos[0], pos[0]))}
+    if not ids or not cbs:
+        raise driver.AnalysisBroken("%s: result variable of the receive call or the data callback not found" % fname)
+    vid = sorted(ids)[0]
+    reach = _follow(fn, rpos[0], vid, 0, stop=cbs)
+    leaves = [b for b in reach if b not in body]
+    desc = "%s: a datagram of 0 bytes reaches the callback (with its sender address) and the loop goes on" % fname
+    (rep.violated if leaves else rep.proved)("R-ZEROWIN", fn, "empty-datagram-delivered", desc,
+                                             "with result 0 the loop is left before the callback: the empty datagram and its sender never reach the caller, and the "
+                                             "datagrams queued behind it wait for the next event" if leaves else "")
+    return 2
